@@ -383,9 +383,12 @@ func (m *Manager) ApplyBatch(entries []*wal.Entry) error {
 			return err // Return ErrWALRotating for retry handling
 		}
 
-		// Apply each entry to the MemTable
-		for i, entry := range entries {
-			seqNum := startSeqNum + uint64(i)
+		// Apply each entry to the MemTable. The WAL stamps the whole batch with one
+		// sequence number, so the memtable must use that same number: numbering the
+		// entries start, start+1, ... would run ahead of the log and let a batch entry
+		// outrank (or tie with) writes that are logged after it.
+		for _, entry := range entries {
+			seqNum := startSeqNum
 
 			switch entry.Type {
 			case wal.OpTypePut:
